@@ -65,6 +65,15 @@ ServeDrift(ln) ==
       want == IF m.ok THEN Named(ln) ELSE 0 IN
   Drift(ln, ln.exc = "" /\ ln.served = want, "served file vs the file PathSafety!SafeJoin names")
 
+(* ---- a helper call observed with the name of the file it opened (repository tests, loader kinds) --- *)
+\*  open : [t, i, op, api, root, cwd, file, opened, status, exc]   root = the exported / trusted directory
+\*         (or the single exported file), file = the name the helper opened (opened = FALSE: it refused)
+OpenClause(ln) ==
+  IF ln.exc # "" THEN "RefusesOrYields"
+  ELSE IF ~ln.opened THEN "ok"
+  ELSE IF Contained(ln.file, ln.root) \/ Contained(ln.file, Join2(ln.cwd, ln.root)) THEN "ok"
+  ELSE "ServedInsideRoot"
+
 (* ---- secure_filename ---------------------------------------------------------------------------- *)
 SanClause(ln) ==
   IF ln.exc # "" THEN "RefusesOrYields"
@@ -86,6 +95,8 @@ Next ==
        [] ln.op = "serve" -> /\ UNCHANGED tree
                              /\ Reject(ln, ServeClause(ln))
                              /\ ServeDrift(ln)
+       [] ln.op = "open" -> /\ UNCHANGED tree
+                            /\ Reject(ln, OpenClause(ln))
        [] ln.op = "san" -> /\ UNCHANGED tree
                            /\ Reject(ln, SanClause(ln))
                            /\ SanDrift(ln)
